@@ -26,8 +26,8 @@ Clause(j) ==
                                    owned == IF t = <<"a","c","c","e","s","s">> THEN OwnedAcc(R) ELSE OwnedRes(R)
                                    covered == \E p \in SeqSet(owned) : NMatches(p, n)
                                IN IF covered THEN R.probes[k][3] = 1 ELSE R.probes[k][3] <= 1
-      \* the reset of start-up and the reset after the reconnect
-      [] j = "reconnect" -> R.served => Len(R.resets) >= 2
+      \* a reset at start-up, after the reconnect, and at the start of the second life of the service
+      [] j = "reconnect" -> R.served => Len(R.resets) >= R.expectResets
       [] OTHER -> FALSE
 Judged == {"coverage", "redundant", "valid", "exact", "queue", "reset", "serves"}
 RealJudged == {"delivered", "reset", "reconnect", "serves"}
